@@ -142,7 +142,7 @@ func (c *Ctx) inRange(x Term, t types.Type) Term {
 }
 
 func isSigned(t types.Type) bool {
-	b, ok := t.Underlying().(*types.Basic)
+	b, ok := under(t).(*types.Basic)
 	if !ok {
 		return true
 	}
@@ -151,7 +151,7 @@ func isSigned(t types.Type) bool {
 }
 
 func widthOf(t types.Type) int {
-	b, ok := t.Underlying().(*types.Basic)
+	b, ok := under(t).(*types.Basic)
 	if !ok {
 		return 64
 	}
@@ -419,7 +419,7 @@ func (c *Ctx) noteUnsigned(x Term, t types.Type) {
 	if c.mode != ModeInt || t == nil {
 		return
 	}
-	if b, ok := t.Underlying().(*types.Basic); ok {
+	if b, ok := under(t).(*types.Basic); ok {
 		if w, signed, isInt := intInfo(b); isInt && !signed {
 			if _, _, have := c.bitsOf(x); !have {
 				c.setBits(x, w, 0)
